@@ -192,7 +192,7 @@ export function randomValue(rng, d) {
     case 5: case 6: return rng.pick(STRS);
     case 7: return 10n;
     case 8: return new Date(rng.chance(1, 5) ? NaN : 86400000 * rng.below(3));
-    case 9: return function f() {};
+    case 9: return rng.chance(1, 3) ? Symbol("s") : function f() {};
     case 10: return new (globalThis[rng.pick(TYPED.slice(0, 9))])(rng.below(3));
     case 11: return rng.pick(STRS);
     case 12: case 13: { const a = Array.from({ length: rng.below(4) }, () => randomValue(rng, d - 1)); if (a.length && rng.chance(1, 6)) delete a[rng.below(a.length)]; return a; } // sometimes sparse
